@@ -64,30 +64,64 @@ def _int_candidates(fs, limit=14):
         if z3.is_const(e) and e.sort() == z3.IntSort() and e.decl().kind() == z3.Z3_OP_UNINTERPRETED:
             out[e.get_id()] = e
         stack.extend(e.children())
-    cands = list(out.values())[:limit]
+    cands = sorted(out.values(), key=lambda c: 0 if str(c).startswith('w_') else 1)[:limit]      # (witnesses of existential hypotheses first)
     res = [z3.IntVal(0)] + cands + [c - 1 for c in cands] + [c + 1 for c in cands]
     return res
+
+def _open_up(fs):
+    """consequences that expose witnesses to the instantiation below: an existential hypothesis gets a fresh constant for its
+    witness (also under an implication: the domain is non-empty), a negated existential (a goal "there is ...") becomes the
+    universal statement it is.  Every formula returned follows from one of `fs` up to the choice of the fresh constants."""
+    out = []
+    def sk(q):
+        vs = [z3.FreshConst(q.var_sort(i), 'w_' + q.var_name(i).split('!')[0]) for i in range(q.num_vars())]
+        return z3.substitute_vars(q.body(), *reversed(vs))
+    def neg_all(q):
+        vs = [z3.FreshConst(q.var_sort(i), q.var_name(i).split('!')[0]) for i in range(q.num_vars())]
+        return z3.ForAll(vs, z3.Not(z3.substitute_vars(q.body(), *reversed(vs))))
+    def is_ex(e): return z3.is_quantifier(e) and e.is_exists()
+    stack = list(fs); n = 0
+    while stack and n < 400:
+        f = stack.pop(); n += 1
+        if is_ex(f): g = sk(f); out.append(g); stack.append(g)
+        elif z3.is_and(f): stack.extend(f.children())
+        elif z3.is_implies(f) and is_ex(f.arg(1)): out.append(z3.Implies(f.arg(0), sk(f.arg(1))))
+        elif z3.is_not(f):
+            a = f.arg(0)
+            if is_ex(a): out.append(neg_all(a))
+            elif z3.is_implies(a):
+                out.append(a.arg(0)); stack.append(a.arg(0)); stack.append(z3.Not(a.arg(1)))
+                if is_ex(a.arg(1)): out.append(neg_all(a.arg(1)))
+            elif z3.is_or(a): stack.extend([z3.Not(c) for c in a.children()])
+    return out
 
 def instantiate_int_foralls(fs):
     """explicit instances of universally quantified hypotheses over Int variables at the integer constants of the query
     (and their neighbours): sound (instances of hypotheses), and makes the query independent of trigger selection"""
     import itertools
-    cands = _int_candidates(fs)
-    extra = []
-    # single-variable hypotheses over another sort (strings, keys): at the uninterpreted constants of that sort in the query (skolem
-    # constants of goals "for all x"), again as plain instances
+    opened = _open_up(fs)
+    fs = list(fs) + opened
+    extra = list(opened)
+    # 1. single-variable hypotheses over another sort (strings, keys): at the uninterpreted constants of that sort in the query (skolem
+    # constants of goals "for all x"), as plain instances
     others = {}
     for f in fs:
         if z3.is_quantifier(f): continue
         for c_ in z3.z3util.get_vars(f):
             if c_.sort() != z3.IntSort() and c_.sort().kind() in (z3.Z3_SEQ_SORT, z3.Z3_UNINTERPRETED_SORT, z3.Z3_DATATYPE_SORT) and ('sk_' in str(c_)):
                 others.setdefault(str(c_.sort()), {})[str(c_)] = c_
+    inst1 = []
     for f in fs:
         if not (z3.is_quantifier(f) and f.is_forall()): continue
+        if f.num_vars() == 1 and f.var_sort(0) != z3.IntSort():
+            for c_ in others.get(str(f.var_sort(0)), {}).values(): inst1.append(z3.substitute_vars(f.body(), c_))
+    opened2 = _open_up(inst1)          # an instance may itself promise a witness ("x is a key -> it has a position")
+    extra += inst1 + opened2
+    # 2. hypotheses over Int variables at the integer constants of the query (witnesses included) and their neighbours
+    cands = _int_candidates(fs + inst1 + opened2)
+    for f in fs + opened2:
+        if not (z3.is_quantifier(f) and f.is_forall()): continue
         nv = f.num_vars()
-        if nv == 1 and f.var_sort(0) != z3.IntSort():
-            for c_ in others.get(str(f.var_sort(0)), {}).values(): extra.append(z3.substitute_vars(f.body(), c_))
-            continue
         if nv > 2 or any(f.var_sort(i) != z3.IntSort() for i in range(nv)): continue
         for combo in itertools.product(cands, repeat=nv):
             extra.append(z3.substitute_vars(f.body(), *reversed(combo)))
